@@ -156,12 +156,29 @@ def _hist_ok(kinds):
             a = [1]
             v = (a, [a, a])   # shared, not cyclic: must succeed
             want_err = False
-        else:
+        elif k == 4:
             # a raw list that reaches itself through a model (models are immutable tuples, so the cycle goes through the list)
             raw = [1]
             v = [hy.models.Integer(0), raw]
             raw.append(v)
             want_err = True
+            repair = raw.pop
+        elif k == 5:
+            # the cycle is entered at a tuple with several elements
+            v = (1, [], "x")
+            v[1].append(v)
+            want_err = True
+            repair = v[1].pop
+        else:
+            d = {"k": 2.5}
+            v = (d, [d], None)
+            d["self"] = v
+            want_err = True
+            repair = lambda: d.pop("self")
+        if k == 1:
+            repair = v.pop
+        elif k == 2:
+            repair = v["a"].pop
         try:
             m = hy.as_model(v)
             if want_err:
@@ -171,6 +188,15 @@ def _hist_ok(kinds):
         except HyWrapperError:
             if not want_err:
                 return "as_model(%r) raised HyWrapperError in history %r" % (v if not want_err else "cyclic", kinds)
+            # break the cycle: the very same objects are finite now and must promote
+            repair()
+            try:
+                m = hy.as_model(v)
+                m2 = hy.as_model(m)
+            except Exception as e:
+                return "after the cycle was broken, as_model of the same objects raised %s: %s (history %r)" % (type(e).__name__, str(e)[:60], kinds)
+            if not _veq(hy.eval(m, {}), v if k != 4 else [0, [1]]):
+                return "after the cycle was broken the promoted value evaluates to %r, not %r" % (hy.eval(m, {}), v)
         except RecursionError:
             return "as_model of a self-referential structure hit RecursionError"
         except Exception as e:
@@ -201,8 +227,8 @@ def spec(tier, seed):
         fn = "h%d" % si
         L = ["def %s(a: int, b: int) -> bool:" % fn, '    """', "    post: _", '    """', "    return am_ok(%d, _sk.box(a, 0, %d), _sk.box(b, 0, %d))" % (si, nl - 1, (nl - 1) if tier == "thorough" else 5)]
         obs.append(Ob(fn, "\n".join(L), sample="shape %s over pairs of %d leaves" % (sh, nl), group="shapes"))
-    L = ["def hhist(k0: int, k1: int, k2: int) -> bool:", '    """', "    post: _", '    """', "    return hist_ok(_sk.box(k0, 0, 4), _sk.box(k1, 0, 4), _sk.box(k2, 0, 4))"]
-    obs.append(Ob("hhist", "\n".join(L), sample="histories of 3 promotions over {plain, cyclic list, cyclic dict, shared-not-cyclic, cycle through a nested list}", group="histories"))
+    L = ["def hhist(k0: int, k1: int, k2: int) -> bool:", '    """', "    post: _", '    """', "    return hist_ok(_sk.box(k0, 0, 6), _sk.box(k1, 0, 6), _sk.box(k2, 0, 6))"]
+    obs.append(Ob("hhist", "\n".join(L), sample="histories of 3 promotions over {plain, cyclic list, cyclic dict, shared-not-cyclic, cycle through a nested list, cycle entered at a 3-tuple, cycle tuple-dict}; after each rejected value the cycle is broken and the same objects promoted again", group="histories"))
     tw = "\n".join(["def twin0(a: int) -> bool:", '    """', "    post: _", '    """', "    am_ok(1, _sk.box(a, 0, 3), 0)", "    return False"])
     obs.append(Ob("twin0", tw, twin=True, group="twin"))
     return {
